@@ -13,73 +13,7 @@
 #include <stdlib.h>
 #include <string.h>
 
-#define ZERO_RESP_TYPE MSG_SYS_CLOCK   /* worst-case answer 0 bytes: never touches the budget */
-
-typedef struct { int depth; uint8_t addr[4]; uint8_t type; int dlen; uint8_t data[160]; } case_t;
-static const uint8_t ALPHA[7] = {0x00, 0x01, 0xDD, 0xDE, 0xFD, 0xFE, 0xFF};
-static const uint8_t SPEC3[3] = {0xFD, 0xFE, 0xFF};
-static const uint8_t ASPEC[5] = {0x01, 0x7F, 0xFD, 0xFE, 0xFF};
-
-static void set_addr(case_t *c, int depth, long salt) {
-	memset(c->addr, 0, 4); c->depth = depth;
-	for (int i = 0; i < depth; i++) c->addr[i] = (uint8_t) (1 + ((salt >> (3 * i)) + i * 7) % 200);
-}
-/* block sizes */
-static long a1_count(void) { long per = 1 + 256 + 7 * 256 + 49 * 256; return 4 * per; }
-static const int A2_LEN[4] = {4, 5, 6, 8};
-static long a2_per_len(int dlen) { int p = dlen - 1; return ((long) p * (p - 1) / 2 * 9 + (long) p * 3) * 256; }
-static long a2_count(void) { long s = 0; for (int i = 0; i < 4; i++) s += a2_per_len(A2_LEN[i]); return s; }
-static long a3_count(void) { return 128 * 4 * 2; }
-static long a4_count(void) { return (5 + 25 + 125) * 257L; }
-static long bytes_total(void) { return a1_count() + a2_count() + a3_count() + a4_count(); }
-
-static int gen_case(long idx, case_t *c) {   /* returns 1 if the case needs budget isolation (non-zero answer type) */
-	memset(c, 0, sizeof *c); c->type = ZERO_RESP_TYPE;
-	if (idx < a1_count()) {
-		long per = a1_count() / 4; int depth = (int) (idx / per); long r = idx % per;
-		set_addr(c, depth, idx);
-		if (r == 0) { c->dlen = 0; return 0; }
-		r -= 1;
-		if (r < 256) { c->dlen = 1; c->data[0] = (uint8_t) r; return 0; }
-		r -= 256;
-		if (r < 7 * 256) { c->dlen = 2; c->data[0] = ALPHA[r / 256]; c->data[1] = (uint8_t) (r % 256); return 0; }
-		r -= 7 * 256;
-		c->dlen = 3; c->data[0] = ALPHA[r / 256 / 7]; c->data[1] = ALPHA[(r / 256) % 7]; c->data[2] = (uint8_t) (r % 256);
-		return 0;
-	}
-	idx -= a1_count();
-	if (idx < a2_count()) {
-		int li = 0; while (idx >= a2_per_len(A2_LEN[li])) { idx -= a2_per_len(A2_LEN[li]); li++; }
-		int dlen = A2_LEN[li], p = dlen - 1; long combo = idx / 256; int last = (int) (idx % 256);
-		set_addr(c, 1 + (int) (combo % 3), combo);
-		c->dlen = dlen; memset(c->data, 0x11, (size_t) dlen); c->data[dlen - 1] = (uint8_t) last;
-		long npairs = (long) p * (p - 1) / 2 * 9;
-		if (combo < npairs) {
-			long pi = combo / 9; int v = (int) (combo % 9); int a = 0, b = 1;
-			for (a = 0; a < p; a++) { int cnt = p - a - 1; if (pi < cnt) { b = a + 1 + (int) pi; break; } pi -= cnt; }
-			c->data[a] = SPEC3[v / 3]; c->data[b] = SPEC3[v % 3];
-		} else { long s = combo - npairs; c->data[s / 3] = SPEC3[s % 3]; }
-		return 0;
-	}
-	idx -= a2_count();
-	if (idx < a3_count()) {
-		c->type = (uint8_t) (idx % 128); int depth = (int) ((idx / 128) % 4); c->dlen = (int) (idx / 512);
-		set_addr(c, depth, idx); c->data[0] = 0x5A;
-		return 1;
-	}
-	idx -= a3_count();
-	{
-		long combo = idx / 257; int sweep = (int) (idx % 257);
-		int depth; if (combo < 5) depth = 1; else if (combo < 30) { depth = 2; combo -= 5; } else { depth = 3; combo -= 30; }
-		c->depth = depth; memset(c->addr, 0, 4);
-		for (int i = 0; i < depth; i++) { c->addr[i] = ASPEC[combo % 5]; combo /= 5; }
-		if (sweep == 256) c->dlen = 0; else { c->dlen = 2; c->data[0] = 0x33; c->data[1] = (uint8_t) sweep; }
-		return 0;
-	}
-}
-static void human_case(const case_t *c, char *buf, size_t n) {
-	snprintf(buf, n, "addr=%02x.%02x.%02x type=%02x data=%s", c->addr[0], c->addr[1], c->addr[2], c->type, hx_hex(c->data, (size_t) c->dlen));
-}
+#include "c01_cases.h"
 
 /* per-node expected sequence numbers (the harness is the only sender) */
 static struct { uint32_t key; int used; int count; } seqtab[4096];
